@@ -554,7 +554,7 @@ def anyjson_tree(rng, vocab, depth=0, maxdepth=5):
     if k == 'arr': return [anyjson_tree(rng, vocab, depth + 1, maxdepth) for _ in range(rng.randint(1, 3))]
     d = {}
     for _ in range(rng.randint(1, 4)):
-        key = rng.choice(vocab['all']) if rng.random() < 0.6 else rng.choice(USER_FIELDS + ['', 'a.b', '$x', 'k"q', 'na\x01me', 'k\x7f', 'discount%', 'a%b', '%d', 'esc\x1bkey', 'bell\x07', 'tab\tkey', 'ключ', 'k\u2028e', 'back\\slash'])
+        key = rng.choice(vocab['all']) if rng.random() < 0.6 else rng.choice(USER_FIELDS + ['', 'a.b', '$x', 'k"q', 'na\x01me', 'k\x7f', 'discount%', 'a%b', '%d', 'esc\x1bkey', 'bell\x07', 'tab\tkey', 'ключ', 'k\u2028e', 'back\\slash', 'R&D', '<id>', 'a>b', 'amp&lt;', 'k\u2029p', 'a,b'])
         d[key] = anyjson_tree(rng, vocab, depth + 1, maxdepth)
     return d
 
